@@ -44,7 +44,9 @@ def main():
         for t in targets:
             d = os.path.join(V, "seeded", t)
             sh("rsync -a --delete --exclude /target --exclude /.git /repo/ %s/" % repo)
-            ap = sh("patch -p1 -s -f -i %s" % os.path.join(d, "patch.diff"), repo)
+            ap = sh("git apply --unsafe-paths --directory=%s %s" % (repo, os.path.join(d, "patch.diff")), "/")
+            if ap.returncode != 0:
+                ap = sh("patch -p1 -s -f -i %s" % os.path.join(d, "patch.diff"), repo)
             if ap.returncode != 0:
                 r = {"error": "patch does not apply"}
             else:
